@@ -1,6 +1,7 @@
 package checks
 
 import (
+	"bufio"
 	"bytes"
 	"fmt"
 	"io"
@@ -116,6 +117,10 @@ func (c *C14) processClause(x *engine.Ctx) *engine.Violation {
 	}
 	gen := &service.Gen{T: t, Sys: c.sys}
 	n := 1 + t.Draw(2)
+	repeat, repeatGap := 0, 0
+	if t.Chance(1, 2) {
+		repeat, repeatGap = 1+t.Draw(2), 1+t.Draw(300)
+	}
 	type result struct {
 		req    *service.Request
 		status int
@@ -123,8 +128,47 @@ func (c *C14) processClause(x *engine.Ctx) *engine.Violation {
 		err    error
 	}
 	results := make(chan result, n)
+	// slow: the first request is sent over a raw connection, headers and half of the body before the
+	// signal, the rest only after every signal has been sent: the request is accepted and inside the
+	// handler (reading its body) for the whole time the stop is being honoured
+	slow := t.Chance(1, 3) || repeat > 0 // repeated signals are only a test while something is still being drained
+	releaseSlow := make(chan struct{})
+	if slow {
+		x.S.Count("fault:process/request-body-completed-only-after-the-signals")
+	}
 	for i := 0; i < n; i++ {
 		r := gen.Valid()
+		if slow && i == 0 {
+			go func() {
+				conn, err := net.Dial("tcp", pa)
+				if err != nil {
+					results <- result{req: r, err: err}
+					return
+				}
+				defer conn.Close()
+				conn.SetDeadline(time.Now().Add(150 * time.Second))
+				head := fmt.Sprintf("POST /prove HTTP/1.1\r\nHost: %s\r\nContent-Type: application/json\r\nContent-Length: %d\r\nConnection: close\r\n\r\n", pa, len(r.Body))
+				half := len(r.Body) / 2
+				if _, err := conn.Write(append([]byte(head), r.Body[:half]...)); err != nil {
+					results <- result{req: r, err: err}
+					return
+				}
+				<-releaseSlow
+				if _, err := conn.Write(r.Body[half:]); err != nil {
+					results <- result{req: r, err: fmt.Errorf("writing the rest of the body of an accepted request: %w", err)}
+					return
+				}
+				resp, err := http.ReadResponse(bufio.NewReader(conn), nil)
+				if err != nil {
+					results <- result{req: r, err: fmt.Errorf("reading the response of an accepted request: %w", err)}
+					return
+				}
+				b, err := io.ReadAll(resp.Body)
+				resp.Body.Close()
+				results <- result{req: r, status: resp.StatusCode, body: b, err: err}
+			}()
+			continue
+		}
 		go func() {
 			resp, err := client.Post("http://"+pa+"/prove", "application/json", bytes.NewReader(r.Body))
 			if err != nil {
@@ -162,8 +206,21 @@ func (c *C14) processClause(x *engine.Ctx) *engine.Violation {
 	}
 	x.S.Count("fault:process/SIGINT")
 	cmd.Process.Signal(syscall.SIGINT)
+	if repeat > 0 {
+		// an impatient operator (or a supervisor that signals the whole process group as well): further
+		// stop requests while the first one is being honoured; they are stop requests like the first
+		for i := 0; i < repeat; i++ {
+			time.Sleep(time.Duration(repeatGap) * time.Millisecond)
+			x.S.Count("fault:process/repeated-SIGINT-while-draining")
+			cmd.Process.Signal(syscall.SIGINT)
+		}
+	}
+	if slow {
+		time.Sleep(time.Duration(1+t.Draw(200)) * time.Millisecond)
+	}
+	close(releaseSlow)
 	x.S.Eval(1)
-	x.S.Seen(fmt.Sprintf("process/%s/inflight=%v/requests=%d", c.sys.Key(), sawInFlight, n))
+	x.S.Seen(fmt.Sprintf("process/%s/inflight=%v/requests=%d/slow=%v/signals=%d", c.sys.Key(), sawInFlight, n, slow, 1+repeat))
 	var viol *engine.Violation
 	for i := 0; i < n; i++ {
 		select {
